@@ -949,6 +949,10 @@ func (in *interp) conv(t_dst, t_src types.Type, x value) value {
 			break
 		}
 		if ut_src.Kind() == types.UnsafePointer {
+			// only pointers that were produced from a *value by the inverse conversion occur here
+			if _, ok := ut_dst.(*types.Pointer); ok {
+				return (*value)(x.(unsafe.Pointer))
+			}
 			return zero(t_dst)
 		}
 		if ut_src.Info()&types.IsComplex != 0 {
